@@ -221,6 +221,25 @@ func Corpus(c *Ctx) []*FileSpec {
 		add("extscope", "extension-scopes", false, f)
 	}
 
+	{ // extensions declared with explicit defaults (GetExtension on an unset one returns the default on the V1 runtimes)
+		f := c.File("extdefault", "proto2")
+		pkg := c.Pkg("extdefault")
+		f.EnumType = append(f.EnumType, colorEnum())
+		base := Msg("Base", F("base", 1, Opt, "int32"))
+		ExtRange(base, 100, 199)
+		holder := Msg("Holder")
+		def := func(fd *FP, v string) *FP { fd.DefaultValue = proto.String(v); return fd }
+		holder.Extension = append(holder.Extension,
+			def(Ext("d_int", 120, Opt, "int32", FullName(pkg, "Base")), "7"),
+			def(Ext("d_str", 121, Opt, "string", FullName(pkg, "Base")), "dflt"),
+			def(Ext("d_bool", 122, Opt, "bool", FullName(pkg, "Base")), "true"),
+			def(Ext("d_enum", 123, Opt, "enum:"+FullName(pkg, "Color"), FullName(pkg, "Base")), "GREEN"),
+			def(Ext("d_dbl", 124, Opt, "double", FullName(pkg, "Base")), "2.5"),
+			Ext("no_default", 125, Opt, "int64", FullName(pkg, "Base")))
+		f.MessageType = append(f.MessageType, base, holder)
+		add("extdefault", "extension-defaults", false, f)
+	}
+
 	// ---- field numbers at key-size boundaries ----
 	{
 		f := c.File("numbers", "proto3")
@@ -268,6 +287,16 @@ func Corpus(c *Ctx) []*FileSpec {
 		deep := Msg("Deep", F("level", 1, Opt, FullName(pkg, "InField")))
 		f.MessageType = append(f.MessageType, inner, inField, inReq, inList, inMap, inOneof, many, deep)
 		add("required", "required-fields", true, f)
+	}
+
+	{ // required fields only in NESTED message types (no top-level message of the file has one)
+		f := c.File("reqnested", "proto2")
+		pkg := c.Pkg("reqnested")
+		outer := Msg("Outer", F("child", 1, Opt, FullName(pkg, "Outer", "Inner")), F("label", 2, Opt, "string"))
+		outer.NestedType = append(outer.NestedType, Msg("Inner", F("need", 1, Req, "int32"), F("note", 2, Opt, "string")))
+		plain := Msg("Plain", F("x", 1, Opt, "int64"))
+		f.MessageType = append(f.MessageType, outer, plain)
+		add("reqnested", "required-only-in-nested-messages", true, f)
 	}
 
 	// ---- composites: everything healthy at once ----
